@@ -12,6 +12,8 @@ pub fn parse_iers_reference(bytes: &[u8]) -> Result<Vec<Entry>, String> {
     let mut out = Vec::new();
     for (ln, raw) in text.split('\n').enumerate() {
         let line = raw.strip_suffix('\r').unwrap_or(raw);
+        // Blanks are not significant: neither in front of a data line or a comment, nor alone.
+        let line = line.trim_start_matches([' ', '\t']);
         if line.is_empty() || line.starts_with('#') {
             continue;
         }
